@@ -316,6 +316,7 @@ class SinexParser(Parser):
             usecols=usecols,
             converters=converters,
             autostrip=True,
+            comments=None,  # '#' is an ordinary character in SINEX data lines (comment lines start with '*')
             encoding=self.file_encoding or "bytes",  # TODO: Use None instead
         )
 
